@@ -20,7 +20,8 @@
      frac/active_index.go        GetDocPos with the snapshot guard      -> active_pos (active_pos_v0: before 5d51c58)
    In the end-to-end model a document is a descriptor (document number >= 1, length in bytes) and a decoded
    block is the list of its documents with their in-block offsets; the byte-level functions run in the
-   unit-level cases, ProofsPos.extract_refines ties the two. NOT modelled: zstd, the docs cache.
+   unit-level cases, ProofsPos.extract_refines ties the two. NOT modelled: zstd. The docs block cache in front of
+   ReadDocsFunc is modelled in ModelDocsCache.v, the worker-slot semaphore of the Fetcher in ModelSlots.v.
    The store is quiescent while a request runs (no concurrent ingest, sealing or deletion: properties C09/C15);
    the parallel per-fraction fetches of fetchDocsAsync are modelled sequentially (their results are combined
    by position, the first error wins). *)
